@@ -17,11 +17,12 @@ class Outcome:
 
 
 class Interp:
-    def __init__(self, fn, stubs=None, max_visits=3):
+    def __init__(self, fn, stubs=None, max_visits=3, atomic=None):
         self.fn = fn
         self.g = fn.cfg
         self.stubs = stubs or {}
         self.max_visits = max_visits
+        self.atomic = atomic        # optional callback (interp, AtomicExpr node, state) -> value of the atomic operation
 
     # ---- lvalue keys
     def key(self, n, st):
@@ -152,6 +153,8 @@ class Interp:
         env, memo = st["env"], st["memo"]
         k = e.k
         if k == "VarDecl":
+            if e.d.get("sc") == "static_local" and e.name in env:
+                return              # a function-static keeps the value the caller supplied
             env[e.name] = self.rv(e.children[0], st) if e.children else None
             return
         if k == "BinaryOperator" and e.op == "=":
@@ -199,7 +202,7 @@ class Interp:
             return
         if k == "AtomicExpr":
             st["calls"].append((e.aop, [], e))
-            memo[e.id] = None
+            memo[e.id] = self.atomic(self, e, st) if self.atomic else None
             return
         if k == "StmtExpr":
             body = e.children[0] if e.children else None
